@@ -161,7 +161,29 @@ fn main() {
             serdecase::run(seed, per, &mut out);
         }
         "export-db" => {
-            db::export(rbx_reflection_database::get(), &mut out);
+            // --reencode msgpack|json: the database as it comes back from the encoding rbx_reflector writes
+            // (rmp_serde::to_vec, positional structs) resp. its JSON output - a regenerated database must be
+            // readable and identical
+            match arg(&args, "--reencode", "").as_str() {
+                "" => db::export(rbx_reflection_database::get(), &mut out),
+                how => {
+                    let r = std::panic::catch_unwind(|| -> Result<rbx_reflection::ReflectionDatabase<'static>, String> {
+                        let original = rbx_reflection_database::get();
+                        if how == "json" {
+                            let text = serde_json::to_string(original).map_err(|e| format!("encode: {}", e))?;
+                            serde_json::from_str(&text).map_err(|e| format!("decode: {}", e))
+                        } else {
+                            let bytes = rmp_serde::to_vec(original).map_err(|e| format!("encode: {}", e))?;
+                            rmp_serde::from_slice(&bytes).map_err(|e| format!("decode: {}", e))
+                        }
+                    });
+                    match r {
+                        Ok(Ok(again)) => db::export(&again, &mut out),
+                        Ok(Err(e)) => writeln!(out, "{}", serde_json::json!({"reencode_error": e})).unwrap(),
+                        Err(_) => writeln!(out, "{}", serde_json::json!({"reencode_error": "panic"})).unwrap(),
+                    }
+                }
+            }
         }
         "db-lookups" => {
             db::export_lookups(rbx_reflection_database::get(), &mut out);
